@@ -41,6 +41,7 @@ type c17Tok struct {
 	signed []int // signing operation that produced each block
 	sealed bool
 	birth  [][]byte // revocation identifiers observed when the token was made
+	held   []byte   // what Serialize returned at that time (kept, not copied)
 }
 
 func checkC17(c C17Case, rec *obs.Recorder) *obs.Violation {
@@ -105,7 +106,22 @@ func checkC17(c C17Case, rec *obs.Recorder) *obs.Violation {
 			for _, id := range ids {
 				live[k].birth = append(live[k].birth, append([]byte{}, id...))
 			}
+			live[k].held = ser // the very slice Serialize returned: it is the caller's from now on
 		} else {
+			// the bytes obtained earlier still are this token: same signatures, block for block
+			old, err := wire.DecodeBiscuit(live[k].held)
+			if err != nil {
+				return obs.ViolK("held-bytes", "history [%s]: the bytes Serialize returned for token %d when it was made no longer decode (%v): a later call wrote into them", strings.Join(hist, ","), k, err)
+			}
+			oa := old.All()
+			if len(oa) != len(live[k].birth) {
+				return obs.ViolK("held-bytes", "history [%s]: the bytes Serialize returned for token %d when it was made now hold %d blocks instead of %d", strings.Join(hist, ","), k, len(oa), len(live[k].birth))
+			}
+			for i := range oa {
+				if !bytes.Equal(oa[i].Signature, live[k].birth[i]) {
+					return obs.ViolK("held-bytes", "history [%s]: the bytes Serialize returned for token %d when it was made were changed by a later call: block %d now carries another signature", strings.Join(hist, ","), k, i)
+				}
+			}
 			for i := range ids {
 				if !bytes.Equal(ids[i], live[k].birth[i]) {
 					return obs.Violf("history [%s]: identifier %d of token %d changed after it was made (a later operation on another token altered it)", strings.Join(hist, ","), i, k)
@@ -295,7 +311,7 @@ func drawC17(t *rapid.T) C17Case {
 func TestC17(t *testing.T) {
 	rec := obs.New("C17")
 	defer rec.Flush(true)
-	rec.SetExtra("rule", "rapid derivation histories over a growing family of tokens under one root key: build / append / seal / serialize+unmarshal on any live token (the byte buffer handed to Unmarshal is overwritten afterwards, as a caller reusing its buffer would), block content drawn from a pool of 1-2 contents so identical content is signed repeatedly on the same and on different tokens, one deterministic random stream that never repeats, delivered whole or in short reads of 1 / 5 / 31 bytes; operations include append-last (deep chains), fan-out (the same content appended 8 times to one parent) and append-twice (one built *Block value handed to Append twice); every other reload goes through one long-lived Unmarshaler value. Oracle after every step, for every live token: one identifier per block, parent's identifiers are a prefix of the child's, identifier i equals the signature the independent reader finds on block i, identifiers of different signing operations are pairwise different over the whole history, and the parent is unchanged. Non-trivial = identical content signed at least twice, or a chain of >= 3 blocks; distinct by history.")
+	rec.SetExtra("rule", "rapid derivation histories over a growing family of tokens under one root key: build / append / seal / serialize+unmarshal on any live token (the byte buffer handed to Unmarshal is overwritten afterwards, as a caller reusing its buffer would), block content drawn from a pool of 1-2 contents so identical content is signed repeatedly on the same and on different tokens, one deterministic random stream that never repeats, delivered whole or in short reads of 1 / 5 / 31 bytes; operations include append-last (deep chains), fan-out (the same content appended 8 times to one parent) and append-twice (one built *Block value handed to Append twice); every other reload goes through one long-lived Unmarshaler value. Oracle after every step, for every live token: one identifier per block, parent's identifiers are a prefix of the child's, identifier i equals the signature the independent reader finds on block i, identifiers of different signing operations are pairwise different over the whole history, the parent is unchanged, and the byte slice Serialize returned when a token was made still decodes to the same signatures after every later call. Non-trivial = identical content signed at least twice, or a chain of >= 3 blocks; distinct by history.")
 	rec.SetExtra("assumptions", []string{"fresh randomness is modelled by a counter-mode SHA-256 stream (never repeats within a history)"})
 	harness.RunWith(t, harness.Spec[C17Case]{ID: "C17", Draw: drawC17, Check: checkC17}, rec)
 }
